@@ -27,6 +27,15 @@ def roundtrip_functions(bib, value):
     o1 = [nm.parse_single_name_into_parts(n) for n in names]
     p1 = [parts_of(p) for p in o1]
     merged = " and ".join(p.merge_last_name_first for p in o1)
+    # a person is edited after it has been merged once (a letter appended to the final word of the last name - the word
+    # keeps its case class): the next merge is of the parts as they are NOW
+    for p, want in zip(o1, p1):
+        if p.last:
+            p.last[-1] = p.last[-1] + "X"
+            again = nm.parse_single_name_into_parts(p.merge_last_name_first)
+            if parts_of(again) != dict(want, last=want["last"][:-1] + [want["last"][-1] + "X"]):
+                return p1, p.merge_last_name_first, ["<merged after an edit>", parts_of(again)]
+            p.last[-1] = p.last[-1][:-1]
     # the caller goes on working with the persons it got (here: edits them); what the merged text splits into is a
     # function of that text
     for p in o1:
@@ -63,7 +72,17 @@ def roundtrip_stack(bib, value, key):
         return None, None, "first parse: " + str([type(b).__name__ for b in lib1.blocks])
     o1 = lib1.entries[0][key]
     v1 = [parts_of(p) for p in o1]
-    text = bib.write_string(lib1, prepend_middleware=[mnp, mca])
+    pl = [mnp, mca]
+    text = bib.write_string(lib1, prepend_middleware=pl)
+    if bib.write_string(lib1, prepend_middleware=pl) != text or len(pl) != 2:
+        return v1, None, "writing a second time with the same prepend_middleware list gives another text (or the list changed)"
+    if ll:
+        # the same entry objects merged in place and structured again (whatever the earlier runs left on them)
+        relib = spl.transform(sep.transform(m.MergeCoAuthors().transform(m.MergeNameParts().transform(lib1))))
+        again = relib.entries[0][key] if relib.entries else None
+        if not isinstance(again, list) or [parts_of(p) if hasattr(p, "first") else p for p in again] != v1:
+            return v1, None, "merge + split of the same entry objects gives %r" % (again,)
+        o1 = again
     for p in o1:                      # (as above: the first library is edited after the document was written)
         p.first = ["<edited>"] + p.first
         p.last.append("<edited>")
